@@ -617,3 +617,170 @@ Example C12_fifo_logs_hypotheses :
       (FifoExamples.pr_logs3 ++ FifoExamples.pr_lg4 :: [FifoExamples.pr_lg5])
     = [([0], [[0]]); ([2; 1], []); ([], []); ([], [[2]]); ([], [[1]])].
 Proof. exact FifoExamples.pr_logs_hypotheses. Qed.
+
+(* ------------------------------------------------------------------------------------------ *)
+(* Run level, priority with ONE operator per container (Proofs/PriorityFifoSingleFacts.v).       *)
+(*                                                                                              *)
+(* In this mode an arriving pipeline files one job per ready operator -- its ROOT operators (no  *)
+(* parents), in the order of operator_states -- and later operators are filed as their parents   *)
+(* complete, i.e. after the pipeline has been served. A class queue holds blocks of jobs and a   *)
+(* scan can stop in the middle of a block. A new job always receives a container when it is      *)
+(* scanned (its size depends on the pool only), so no root operator is skipped.                  *)
+(* Vocabulary: [root_ops C k] = the operators of pipeline k without parents, in the order of     *)
+(* operator_states; [root_job C k o] = the job with the single operator o, class of k, no retry  *)
+(* statistics; [root_jobs C k] = these jobs for all root operators of k; [before l x y] = x      *)
+(* stands before some occurrence of y in l.                                                      *)
+(* ------------------------------------------------------------------------------------------ *)
+From Eudoxia Require Import Proofs.PriorityFifoSingleFacts.
+Close Scope Q_scope.
+Close Scope Z_scope.
+
+(* states. In every class queue the jobs that hold an operator of a never-served pipeline are exactly the root
+   jobs of the arrived, never-served pipelines of that class: grouped by pipeline, the pipelines in arrival
+   order, each with all its root operators (clauses 1, 2); hence every root job of an earlier never-served
+   pipeline stands before every job of a later one (clause 3); every arrived pipeline has a root operator;
+   a never-served pipeline has all its operators PENDING *)
+Theorem C12_single_run_fifo : forall C l np cpu ram t s logs,
+  cf_static C = mk_static l -> dags_wf l -> cf_multi C = false ->
+  sim_hist C APriority 0%Z (init_sim C np cpu ram) t s logs ->
+  (forall k, In k (arrived s) -> pd_order (pipe_of (cf_static C) k) <> []) ->
+  (forall c, filter (jnew C (served_pipes C logs)) (queue_of (sm_sched s) c)
+             = flat_map (root_jobs C) (waiting C (served_pipes C logs) c (arrived s))) /\
+  (forall c, map j_pipe (filter (jnew C (served_pipes C logs)) (queue_of (sm_sched s) c))
+             = flat_map (fun k => map (fun _ => k) (root_ops C k))
+                        (waiting C (served_pipes C logs) c (arrived s))) /\
+  (forall c k1 k2 q1 j2 q2,
+     before (waiting C (served_pipes C logs) c (arrived s)) k1 k2 ->
+     filter (jnew C (served_pipes C logs)) (queue_of (sm_sched s) c) = q1 ++ j2 :: q2 -> j_pipe j2 = k2 ->
+     forall o1, In o1 (root_ops C k1) -> In (root_job C k1 o1) q1) /\
+  (forall k, In k (arrived s) -> root_ops C k <> []) /\
+  (forall k, ~ In k (served_pipes C logs) -> fresh C (wof s) k) /\
+  incl (served_pipes C logs) (arrived s) /\ NoDup (arrived s).
+Proof. exact PriorityFifoSingleFacts.priority_single_run_fifo. Qed.
+Print Assumptions C12_single_run_fifo.
+
+(* ticks. For every tick of every run there are, for each class c, a list [served c] of pipelines and a list
+   [started c] of jobs such that
+   1. the never-served pipelines of class c before the tick (the tick's arrivals included), in arrival order,
+      are [served c] followed by those still never served after the tick: the pipelines reached are an
+      arrival-ordered PREFIX of the waiting ones;
+   2. [started c] is: all root jobs of every pipeline of [served c] but the last, then a non-empty prefix of
+      the root jobs of the last one (the scan may stop in the middle of the last block);
+   3. the assignments of the tick that hold an operator of a never-served pipeline are, in the order of the log,
+      one per job of started Query ++ started Interactive ++ started Batch, with its operator and priority;
+   4. every pipeline of [served c] was never served before and holds a container in this tick;
+   5. the order, in the form of C12_run_fifo_tick;
+   6. no overtaking: if an assignment of the tick holds an operator of a never-served pipeline k2, then for
+      every never-served pipeline k1 of the same class that arrived earlier, EVERY root operator of k1 is started
+      by an assignment standing earlier in the log of this tick *)
+Theorem C12_single_run_fifo_tick : forall C l np cpu ram t s logs newp s' lg,
+  cf_static C = mk_static l -> dags_wf l -> cf_multi C = false ->
+  sim_hist C APriority 0%Z (init_sim C np cpu ram) t s logs ->
+  sim_tick C APriority t s newp = Ok (s', lg) ->
+  (forall k, In k (arrived s') -> pd_order (pipe_of (cf_static C) k) <> []) ->
+  exists (served : prio -> list nat) (started : prio -> list job),
+    (forall c, waiting C (served_pipes C logs) c (arrived s')
+               = served c ++ waiting C (served_pipes C (logs ++ [lg])) c (arrived s')) /\
+    (forall c, (served c = [] /\ started c = []) \/
+               exists W1 k r1 r2, served c = W1 ++ [k] /\ root_jobs C k = r1 ++ r2 /\ r1 <> [] /\
+                                  started c = flat_map (root_jobs C) W1 ++ r1) /\
+    Forall2 (fun j a => a_ops a = j_ops j /\ a_prio a = j_prio j)
+            (started Query ++ started Interactive ++ started Batch)
+            (filter (anew C (served_pipes C logs)) (tl_asgs lg)) /\
+    (forall c k, In k (served c) ->
+       In k (arrived s') /\ prio_of_pipe C k = c /\ ~ In k (served_pipes C logs) /\ In k (log_pipes C lg)) /\
+    (forall l1 k1 l2 k2, arrived s' = l1 ++ k1 :: l2 -> In k2 l2 ->
+       prio_of_pipe C k1 = prio_of_pipe C k2 -> ~ In k1 (served_pipes C logs) ->
+       In k2 (served (prio_of_pipe C k2)) ->
+       exists s1 s2, served (prio_of_pipe C k2) = s1 ++ k1 :: s2 /\ In k2 s2) /\
+    (forall l1 k1 l2 k2 pre a2 post o2,
+       arrived s' = l1 ++ k1 :: l2 -> In k2 l2 ->
+       prio_of_pipe C k1 = prio_of_pipe C k2 ->
+       ~ In k1 (served_pipes C logs) -> ~ In k2 (served_pipes C logs) ->
+       tl_asgs lg = pre ++ a2 :: post -> In o2 (a_ops a2) -> op_pipe (cf_static C) o2 = k2 ->
+       forall o1, In o1 (root_ops C k1) -> exists a1, In a1 pre /\ a_ops a1 = [o1]).
+Proof. exact PriorityFifoSingleFacts.priority_single_run_fifo_tick. Qed.
+Print Assumptions C12_single_run_fifo_tick.
+
+(* the same read off the logs of a run alone (clauses 1-3) *)
+Theorem C12_single_run_fifo_logs : forall C l np cpu ram arrivals sf logs oe,
+  cf_static C = mk_static l -> dags_wf l -> cf_multi C = false ->
+  sim_run C APriority 0%Z (init_sim C np cpu ram) arrivals = (sf, logs, oe) ->
+  (forall k, In k (concat arrivals) -> pd_order (pipe_of (cf_static C) k) <> []) ->
+  forall pre lg post, logs = pre ++ lg :: post ->
+  exists (served : prio -> list nat) (started : prio -> list job),
+    (forall c, waiting C (served_pipes C pre) c (flat_map tl_new (pre ++ [lg]))
+               = served c ++ waiting C (served_pipes C (pre ++ [lg])) c (flat_map tl_new (pre ++ [lg]))) /\
+    (forall c, (served c = [] /\ started c = []) \/
+               exists W1 k r1 r2, served c = W1 ++ [k] /\ root_jobs C k = r1 ++ r2 /\ r1 <> [] /\
+                                  started c = flat_map (root_jobs C) W1 ++ r1) /\
+    Forall2 (fun j a => a_ops a = j_ops j /\ a_prio a = j_prio j)
+            (started Query ++ started Interactive ++ started Batch)
+            (filter (anew C (served_pipes C pre)) (tl_asgs lg)).
+Proof. exact PriorityFifoSingleFacts.priority_single_logs_fifo. Qed.
+Print Assumptions C12_single_run_fifo_logs.
+
+(* non-vacuity, on a run where the order matters. Three batch pipelines without edges: pipeline 0 = operators
+   0, 1, 2 (three ticks each), pipeline 1 = operators 3, 4, pipeline 2 = operators 5, 6. One pool of 3 CPU / 3 GB
+   holds three containers. Pipeline 0 arrives in tick 0 and fills the pool; pipelines 2 and 1 arrive IN THIS ORDER
+   in tick 1 while the pool is full. All hypotheses of the theorems hold at tick 3 ... *)
+Example C12_single_fifo_hypotheses :
+  cf_static SingleFifoExamples.Cs = mk_static SingleFifoExamples.Ls /\ dags_wf SingleFifoExamples.Ls /\
+  cf_multi SingleFifoExamples.Cs = false /\
+  sim_hist SingleFifoExamples.Cs APriority 0%Z (init_sim SingleFifoExamples.Cs 1 3%Z 3%Q) 3%Z
+           SingleFifoExamples.s_s3 SingleFifoExamples.s_logs3 /\
+  sim_tick SingleFifoExamples.Cs APriority 3%Z SingleFifoExamples.s_s3 []
+    = Ok (SingleFifoExamples.s_s4, SingleFifoExamples.s_lg4) /\
+  (forall k, In k (arrived SingleFifoExamples.s_s3) ->
+             pd_order (pipe_of (cf_static SingleFifoExamples.Cs) k) <> []) /\
+  (forall k, In k (arrived SingleFifoExamples.s_s4) ->
+             pd_order (pipe_of (cf_static SingleFifoExamples.Cs) k) <> []).
+Proof. exact SingleFifoExamples.s_hypotheses. Qed.
+
+(* ... what the run looks like: before the round of tick 3 the batch queue holds the blocks [5], [6] | [3], [4] of
+   the never-served pipelines 2, 1; the tick starts [5], [6], [3] -- the whole block of pipeline 2, then a part
+   of the block of pipeline 1 -- and afterwards no pipeline is waiting; the job [4] is left in the queue *)
+Example C12_single_fifo_view :
+  map j_ops (ss_b (sm_sched SingleFifoExamples.s_s3)) = [[5]; [6]; [3]; [4]] /\
+  root_ops SingleFifoExamples.Cs 2 = [5; 6] /\ root_ops SingleFifoExamples.Cs 1 = [3; 4] /\
+  served_pipes SingleFifoExamples.Cs SingleFifoExamples.s_logs3 = [0; 0; 0] /\
+  waiting SingleFifoExamples.Cs (served_pipes SingleFifoExamples.Cs SingleFifoExamples.s_logs3) Batch
+          (arrived SingleFifoExamples.s_s4) = [2; 1] /\
+  waiting SingleFifoExamples.Cs
+          (served_pipes SingleFifoExamples.Cs (SingleFifoExamples.s_logs3 ++ [SingleFifoExamples.s_lg4])) Batch
+          (arrived SingleFifoExamples.s_s4) = [] /\
+  map a_ops (tl_asgs SingleFifoExamples.s_lg4) = [[5]; [6]; [3]] /\
+  map a_ops SingleFifoExamples.s_pre = [[5]; [6]] /\ a_ops SingleFifoExamples.s_a2 = [3] /\
+  map j_ops (ss_b (sm_sched SingleFifoExamples.s_s4)) = [[4]].
+Proof. exact SingleFifoExamples.s_view. Qed.
+
+(* ... the state theorem applied to the state before tick 3 ... *)
+Example C12_single_fifo_state_applied :
+  map j_ops (filter (jnew SingleFifoExamples.Cs (served_pipes SingleFifoExamples.Cs SingleFifoExamples.s_logs3))
+                    (ss_b (sm_sched SingleFifoExamples.s_s3))) = [[5]; [6]; [3]; [4]].
+Proof. exact SingleFifoExamples.s_state_applied. Qed.
+
+(* ... and the tick theorem applied to tick 3: the pipelines reached are [2; 1], in arrival order, and the
+   assignment of pipeline 1 ([s_a2], operator 3) stands after assignments ([s_pre]) for both root operators of
+   pipeline 2 *)
+Example C12_single_fifo_applied :
+  exists (served : prio -> list nat) (started : prio -> list job),
+    served Batch = [2; 1] /\
+    Forall2 (fun j a => a_ops a = j_ops j /\ a_prio a = j_prio j)
+            (started Query ++ started Interactive ++ started Batch)
+            (filter (anew SingleFifoExamples.Cs (served_pipes SingleFifoExamples.Cs SingleFifoExamples.s_logs3))
+                    (tl_asgs SingleFifoExamples.s_lg4)) /\
+    (forall o1, In o1 (root_ops SingleFifoExamples.Cs 2) ->
+       exists a1, In a1 SingleFifoExamples.s_pre /\ a_ops a1 = [o1]).
+Proof. exact SingleFifoExamples.s_tick_applied. Qed.
+
+Example C12_single_fifo_logs_hypotheses :
+  sim_run SingleFifoExamples.Cs APriority 0%Z (init_sim SingleFifoExamples.Cs 1 3%Z 3%Q) SingleFifoExamples.arrs5
+    = (SingleFifoExamples.s_s5,
+       SingleFifoExamples.s_logs3 ++ SingleFifoExamples.s_lg4 :: [SingleFifoExamples.s_lg5], None) /\
+  (forall k, In k (concat SingleFifoExamples.arrs5) ->
+             pd_order (pipe_of (cf_static SingleFifoExamples.Cs) k) <> []) /\
+  map (fun lg => (tl_new lg, map a_ops (tl_asgs lg)))
+      (SingleFifoExamples.s_logs3 ++ SingleFifoExamples.s_lg4 :: [SingleFifoExamples.s_lg5])
+    = [([0], [[0]; [1]; [2]]); ([2; 1], []); ([], []); ([], [[5]; [6]; [3]]); ([], [[4]])].
+Proof. exact SingleFifoExamples.s_logs_hypotheses. Qed.
